@@ -89,6 +89,14 @@ func runFnCase(c *Ctx, m string, name string, args []*variants.Variant) {
 	})
 	c.record(op, len(args) > 0)
 	c.count("fn:" + canon)
+	if c.Prop == "C08" && canon != "" && canon != "Ticks" && canon != "Now" && canon != "Rnd" && canon != "Random" && c.Rng.Intn(3) == 0 {
+		// "looked up by name": the same call on a default collection the user edited (another function removed,
+		// one of their own added) must find the same function
+		other := fnNames[c.Rng.Intn(len(fnNames))]
+		if !strings.EqualFold(other, canon) {
+			runFnEdited(c, m, name, other, args, impl)
+		}
+	}
 	if strings.HasPrefix(impl, "panic:") || impl == "both" || impl == "neither" {
 		c.fail(Failure{Kind: "oracle", Op: op, Impl: impl, Note: "a function must return exactly one of a result or an error, never a nil result without error"})
 		return
@@ -245,7 +253,52 @@ func propC08(c *Ctx) {
 	c.Notes = append(c.Notes, fmt.Sprintf("37 registered names in random letter case x %d argument lists each (valid arities 3/4 of the time, otherwise 0..8 arguments) from the boundary pool of 10 types, both managers; clock/random checked against the call interval / [0,1); transcendental functions checked against Go's math on the converted argument; Min/Max/Sum against the left fold", reps))
 }
 
+func runFnEdited(c *Ctx, m, name, removed string, args []*variants.Variant, plain string) {
+	op := strings.TrimSpace(fmt.Sprintf("fnedit %s %s %s %s", m, strRunes(name), strRunes(removed), argsStr(args)))
+	found := ""
+	got := safeCall(func() string {
+		coll := functions.NewDefaultFunctionCollection()
+		coll.RemoveByName(removed)
+		coll.Add(functions.NewDelegatedFunction("UserDefined", func(params []*variants.Variant, ops variants.IVariantOperations) (*variants.Variant, error) {
+			return variants.VariantFromString("user"), nil
+		}))
+		f := coll.FindByName(name)
+		if f == nil {
+			return "err FUNC_NOT_FOUND"
+		}
+		found = f.Name()
+		r, err := f.Calculate(args, mgrOf(m))
+		return outcome(r, err)
+	})
+	c.count("fn-edited-collection")
+	if found != "" && !strings.EqualFold(found, name) {
+		c.fail(Failure{Kind: "oracle", Op: op, Impl: got, Spec: plain, Note: fmt.Sprintf("after RemoveByName(%q) the name %q resolves to the function %q", removed, name, found)})
+		return
+	}
+	if got != plain {
+		c.fail(Failure{Kind: "oracle", Op: op, Impl: got, Spec: plain, Note: fmt.Sprintf("after RemoveByName(%q) and one Add, %s(...) gives %s; on the untouched default collection it gives %s", removed, name, got, plain)})
+	}
+}
+
 func replayC08(c *Ctx, op string) {
+	if f := strings.Fields(op); len(f) >= 4 && f[0] == "fnedit" {
+		var args []*variants.Variant
+		for _, a := range f[4:] {
+			args = append(args, decVariant(a))
+		}
+		name := string(parseRunes(f[2]))
+		plain := safeCall(func() string {
+			fn := functions.NewDefaultFunctionCollection().FindByName(name)
+			if fn == nil {
+				return "err FUNC_NOT_FOUND"
+			}
+			r, err := fn.Calculate(args, mgrOf(f[1]))
+			return outcome(r, err)
+		})
+		c.record(op, true)
+		runFnEdited(c, f[1], name, string(parseRunes(f[3])), args, plain)
+		return
+	}
 	f := strings.Fields(op)
 	if len(f) >= 3 && f[0] == "fn" {
 		var args []*variants.Variant
@@ -460,6 +513,9 @@ func runEvalCase(c *Ctx, e *ex, expr string, m string, binds []binding, label st
 		c.fail(Failure{Kind: "oracle", Op: opLabel, Impl: out, Note: fmt.Sprintf("evaluating %q must yield exactly one of a result or an error", expr)})
 		return
 	}
+	if c.Prop == "C01" {
+		reuseEval(c, m, evalStep{expr, binds}, out)
+	}
 	if perr != "" {
 		if e != nil {
 			c.fail(Failure{Kind: "oracle", Op: opLabel, Impl: out, Note: fmt.Sprintf("well-formed expression %q was rejected", expr)})
@@ -523,6 +579,9 @@ func propC01(c *Ctx) {
 }
 
 func replayEval(c *Ctx, op string) {
+	if replaySeq(c, op) {
+		return
+	}
 	f := strings.Fields(op)
 	if len(f) >= 3 && f[0] == "evalx" {
 		var binds []binding
